@@ -106,10 +106,14 @@ def run(tier):
         if clause.startswith("KF:"):
             continue        # the C12 finding (restore of an older step into the same directory) is C12's
         key = f"{prop} {clause} :: {desc}"
-        if "policy field differs" in clause and sc["kind"] != "PI" and "second-call" in sc["name"]:
-            key = KF_POLICY
         rep.violation(key, {"scenario": sc, "clause": clause, "event_index": at,
                                                         "event": tr["ev"][at - 1] if 0 < at <= len(tr["ev"]) else None})
+    # notes printed without stopping the trace: the policy field of the restored solver
+    for k, notes in getattr(rep, "extra_drift", {}).items():
+        sc = results[k][0]
+        if any("policy field differs" in str(n) for n in notes):
+            key = KF_POLICY if sc["kind"] != "PI" else f"C10 restore: the policy field differs from the one handed to save() :: {sc['name']}"
+            rep.violation(key, {"scenario": sc, "clause": "restore: the policy field differs from the one handed to save() at that step"})
     for sc, tr, _ in results[:4]:
         rep.sample({"scenario": sc["name"],
                     "restores": [{k: e[k] for k in ("e", "req", "iter", "vtag", "gtag", "htag", "ptag", "cfgeq", "nfreq", "nkeep", "ndir", "exc")}
